@@ -276,9 +276,9 @@ theorem realloc_last (p : Pool) (o os n : Nat) (h : Geo p) (ho : o + os ≤ p.po
   · rw [hmod] at h2; exact absurd hl h2
   · rw [hmod] at h4; exact absurd hl h4
 
-theorem growSize_bounds (c : CM) (req : Bool) (n : Nat) (h : growSize c req = some n) :
+theorem growSizeG_bounds (m : Bool) (c : CM) (req : Bool) (n : Nat) (h : growSizeG m c req = some n) :
     c.rbSize ≤ n ∧ n ≤ c.rbSize + getFree c.p := by
-  unfold growSize at h
+  unfold growSizeG at h
   simp only at h
   by_cases h0 : getFree c.p = 0
   · simp [h0] at h
@@ -297,9 +297,16 @@ theorem growSize_bounds (c : CM) (req : Bool) (n : Nat) (h : growSize c req = so
           | false => simp at h
           | true =>
             simp only [Bool.not_true, Bool.false_eq_true, if_false] at h
-            split at h <;> split at h <;> (have := Option.some.inj h; omega)
+            have key : ∀ si : Nat, (if si < getFree c.p then some (c.rbSize + si) else some (c.rbSize + getFree c.p)) = some n →
+                c.rbSize ≤ n ∧ n ≤ c.rbSize + getFree c.p := by
+              intro si hh
+              split at hh <;> (have := Option.some.inj hh; omega)
+            exact key _ h
       · rw [if_neg h2] at h
         have := Option.some.inj h; omega
+
+theorem growSize_bounds (c : CM) (req : Bool) (n : Nat) (h : growSize c req = some n) :
+    c.rbSize ≤ n ∧ n ≤ c.rbSize + getFree c.p := growSizeG_bounds _ c req n h
 
 theorem step_grow (c : CM) (req : Bool) (h : CMInv c) : CMInv (step c (.grow req)).1 := by
   simp only [step]
